@@ -153,7 +153,7 @@ fn catalogue_cases(tier: Tier) -> Vec<Scenario> {
 fn n_sampled_chunks(tier: Tier) -> u64 {
     match tier {
         Tier::Quick => 4_000,
-        Tier::Thorough => 40_000,
+        Tier::Thorough => 120_000,
     }
 }
 
